@@ -1641,7 +1641,7 @@ func (_inc) exec(vm *vm) {
 	case valueInt:
 		v = intToValue(int64(n + 1))
 	default:
-		v = valueFloat(n.ToFloat() + 1)
+		v = floatToValue(n.ToFloat() + 1)
 	}
 
 	vm.stack[vm.sp-1] = v
@@ -1661,7 +1661,7 @@ func (_dec) exec(vm *vm) {
 	case valueInt:
 		v = intToValue(int64(n - 1))
 	default:
-		v = valueFloat(n.ToFloat() - 1)
+		v = floatToValue(n.ToFloat() - 1)
 	}
 
 	vm.stack[vm.sp-1] = v
